@@ -1,5 +1,6 @@
 """C15 -- signal: every waiting listener gets every value; disconnect wakes all."""
 import os
+import time
 from concurrent.futures import ThreadPoolExecutor
 
 import vlib
@@ -14,8 +15,11 @@ def names_of(kinds):
     return {"%s%d" % (KPREFIX[k], i + 1): k for i, k in enumerate(kinds)}
 
 
-def seq_constants(kinds, void, coro, strict, max_emit, max_handles, forms=None, hooked=False, reg_emit=0):
-    """hooked: the first listener (a coroutine kind) obtains its emitter/collector pair through signal::hook_up()"""
+def seq_constants(kinds, void, coro, strict, max_emit, max_handles, forms=None, hooked=False, reg_emit=0,
+                  nsig=1, rebinds=(), shells=False, rebound=None, max_cancel=2):
+    """hooked: the first listener (a coroutine kind) obtains its emitter/collector pair through signal::hook_up()
+    nsig: number of signal objects; rebinds: forms of re-binding the listeners' emitter objects; shells: signal
+    objects without state (moved-from) are used as well"""
     nm = names_of(kinds)
     c = {}
     for k, cname in KCONST.items():
@@ -30,16 +34,34 @@ def seq_constants(kinds, void, coro, strict, max_emit, max_handles, forms=None, 
     c["Strict"] = "TRUE" if strict else "FALSE"
     c["Hooked"] = "{%s}" % (list(nm)[0] if hooked else "")
     c["RegEmit"] = reg_emit
+    c["Sigs"] = "{" + ", ".join(str(i + 1) for i in range(nsig)) + "}"
+    c["Rebinds"] = "{" + ", ".join('"%s"' % r for r in rebinds) + "}"
+    c["Shells"] = "TRUE" if shells else "FALSE"
+    # rebound: indices (into kinds) of the listeners whose emitter object is re-bound; default: every coroutine listener
+    coros = [n for n, k in nm.items() if k in ("loop", "gated")]
+    c["Rebound"] = "{" + ", ".join(coros if rebound is None else [list(nm)[i] for i in rebound]) + "}" if rebinds else "{}"
+    c["MaxCancel"] = max_cancel
     return c, nm
 
 
-def seq_proj(nm):
+def per_sig(x):
+    """a TLA+ function over Sigs = 1..n is printed as a tuple"""
+    if isinstance(x, dict):
+        return {str(k): v for k, v in x.items()}
+    return {str(i + 1): v for i, v in enumerate(x)}
+
+
+def seq_proj(nm, hooked=False):
     cbs = [n for n, k in nm.items() if k.startswith("cb")]
+    coros = [n for n, k in nm.items() if not k.startswith("cb")]
 
     def pj(st):
-        d = {k: st[k] for k in ("refs", "chain", "cur", "stor", "cvar", "held", "sp", "queue", "nemit")}
+        d = {k: st[k] for k in ("held", "sp", "queue", "nemit")}
+        for k in ("refs", "chain", "cur", "stor", "cvar"):
+            d[k] = per_sig(st[k])
         d["st"] = st["st"] or {}
         d["received"] = st["received"] or {}
+        d["bind"] = {} if hooked else {l: st["bind"][l] for l in coros}
         d["heap"] = sum(1 for c in cbs if st["st"][c] == "waiting")
         d["cblive"] = {c: (1 if st["st"][c] == "waiting" else 0) for c in cbs}
         return d
@@ -47,8 +69,10 @@ def seq_proj(nm):
 
 
 def run_seq(ctx, rp, tag, kinds, void=False, coro=False, strict=False, max_emit=2, max_handles=2, forms=None,
-            max_paths=None, extra_random=0, replay=True, replay_timeout=900, hooked=False, reg_emit=0):
-    consts, nm = seq_constants(kinds, void, coro, strict, max_emit, max_handles, forms, hooked, reg_emit)
+            max_paths=None, extra_random=0, replay=True, replay_timeout=900, hooked=False, reg_emit=0,
+            nsig=1, rebinds=(), shells=False, pay=False, rebound=None, max_cancel=2):
+    consts, nm = seq_constants(kinds, void, coro, strict, max_emit, max_handles, forms, hooked, reg_emit, nsig, rebinds, shells,
+                               rebound, max_cancel)
     if not replay:
         cfgp = os.path.join(vlib.BUILD, "%s_%s.cfg" % (ctx.prop, tag))
         vlib.write_cfg(cfgp, open(os.path.join(vlib.VERIF, "spec/Signal/Signal_base.cfg")).read(), consts)
@@ -58,18 +82,25 @@ def run_seq(ctx, rp, tag, kinds, void=False, coro=False, strict=False, max_emit=
         return res
 
     def hdr(k, st0):
-        return {"void": void, "coro": coro, "pick": k % 4, "kinds": nm, "hooked": list(nm)[0] if hooked else "",
-                "late": bool((k // 4) % 2)}
+        return {"void": void, "pay": pay, "nsig": nsig, "coro": coro, "pick": k % 4, "kinds": nm,
+                "hooked": list(nm)[0] if hooked else "", "late": bool((k // 4) % 2)}
     must = list(SEQ_ACTIONS)
     if hooked:
         must.append("HookUp")
     if any(k.startswith("cb") for k in kinds):
         must.append("Connect")
+        if shells:
+            must.append("ConnectDead")
+    if shells:
+        must.append("MoveHandle")
+    if rebinds:
+        must.append("Rebind")
     if not any(k in ("loop", "gated") for k in kinds):
         must.remove("ListenerAwait")
     if coro:
         must.append("Yield")
-    res, g = graph_replay(ctx, "Signal", "Signal", "Signal_base.cfg", tag, rp, seq_proj(nm), header_fn=hdr,
+    ctx.rng.cover_loops = True      # see fast_cover_paths
+    res, g = graph_replay(ctx, "Signal", "Signal", "Signal_base.cfg", tag, rp, seq_proj(nm, hooked), header_fn=hdr,
                           constants=consts, must_take=must, max_paths=max_paths, extra_random=extra_random,
                           tlc_kw={"workers": 4}, replay_timeout=replay_timeout)
     return res
@@ -178,10 +209,26 @@ def fast_cover_paths(g, rng, max_paths=None, full=True, max_len=400, want_termin
     (paths, covered, total)) in O(total path length): vlib's version searches the nearest uncovered edge
     by BFS whenever a walk is stuck, which is quadratic on the 10^5-edge graphs of Signal.tla.
     Here every still uncovered edge u->v gets: shortest path root->u (BFS tree), the edge, a greedy
-    continuation over uncovered edges (with a small look-ahead), then the shortest way to a terminal state."""
+    continuation over uncovered edges (with a small look-ahead), then the shortest way to a terminal state.
+    Self-loop edges (actions that leave the abstract state as it is: a signal object moved, an emitter re-bound to
+    the signal it designates already) are replayed too: each one by the first path that visits its state."""
     from collections import deque
     out = {n: [(l, d) for (l, d) in es if d != n] for n, es in g.edges.items()}
-    total = sum(len(v) for v in out.values())
+    loops = {}
+    for n, es in (g.edges.items() if getattr(rng, "cover_loops", False) else ()):     # (set by run_seq on the job's own stream)
+        ll = sorted(set(l for (l, d) in es if d == n))
+        if ll:
+            loops[n] = ll
+    nloops = sum(len(v) for v in loops.values())
+    loops_done = [0]
+    total = sum(len(v) for v in out.values()) + nloops
+
+    def visit(n, steps):
+        ll = loops.pop(n, None)
+        if ll:
+            for l in ll:
+                steps.append((l, n))
+            loops_done[0] += len(ll)
     parent = {}
     order = []
     inits = list(g.init)
@@ -253,12 +300,14 @@ def fast_cover_paths(g, rng, max_paths=None, full=True, max_len=400, want_termin
             if (u, i) in covered:
                 continue
             if max_paths is not None and len(paths) >= max_paths:
-                return paths, len(covered), total
+                return paths, len(covered) + loops_done[0], total
             root, pre = prefix(u)
             steps = []
+            visit(root, steps)
             for (n, j) in pre + [(u, i)]:
                 covered.add((n, j))
                 steps.append(out[n][j])
+                visit(out[n][j][1], steps)
             cur = out[u][i][1]
             while len(steps) < max_len:
                 unc = [j for j in range(len(out[cur])) if (cur, j) not in covered]
@@ -272,14 +321,25 @@ def fast_cover_paths(g, rng, max_paths=None, full=True, max_len=400, want_termin
                     covered.add((n, j))
                     steps.append(out[n][j])
                     cur = out[n][j][1]
+                    visit(cur, steps)
             if want_terminal:
                 while out[cur] and cur in dist and len(steps) < max_len + 200:
                     j = min(range(len(out[cur])), key=lambda x: dist.get(out[cur][x][1], 1 << 30))
                     covered.add((cur, j))
                     steps.append(out[cur][j])
                     cur = out[cur][j][1]
+                    visit(cur, steps)
             paths.append((root, steps))
-    return paths, len(covered), total
+    for n in list(loops):          # states without outgoing edges to other states
+        if n in loops and n in parent and (max_paths is None or len(paths) < max_paths):
+            root, pre = prefix(n)
+            steps = []
+            visit(root, steps)
+            for (q, j) in pre:
+                steps.append(out[q][j])
+                visit(out[q][j][1], steps)
+            paths.append((root, steps))
+    return paths, len(covered) + loops_done[0], total
 
 
 def sub_ctx(ctx, tag):
@@ -304,10 +364,13 @@ def run_jobs(ctx, jobs, par=3):
     def one(k):
         if len(ctx.violations) >= 3:
             return
+        t0 = time.time()
         try:
             jobs[k][1](subs[k])
         except Exception as e:   # re-raised in the main thread
             errs.append(e)
+        if os.environ.get("C15_TIMES"):
+            vlib.log("  job %s: %.1f s %s" % (jobs[k][0], time.time() - t0, [(m.get("distinct"), m.get("edges"), m.get("paths")) for m in subs[k].models]))
     with ThreadPoolExecutor(max_workers=par) as ex:
         list(ex.map(one, range(len(jobs))))
     for s in subs:
@@ -348,6 +411,8 @@ def run(ctx):
     def fine(tag, kinds, **kw):
         jobs.append((tag, lambda c: run_fine(c, rpc, tag, kinds, **kw)))
     LGO, LGT, LFT = ["loop", "gated", "cbonce"], ["loop", "gated", "cbt"], ["loop", "cbf", "cbt"]
+    ALLF = ["inplace", "inplace2", "default", "rvalue", "lvalue"]
+    RB4 = ["cctor", "mctor", "cassign", "massign"]
     # edge covers of 10^4..10^5-edge graphs: see fast_cover_paths (same contract as vlib.cover_paths, which
     # framework.graph_replay looks up at call time; this process runs only this check)
     vlib.cover_paths = fast_cover_paths
@@ -358,10 +423,24 @@ def run(ctx):
         seq("n_lgo", LGO, max_emit=2, **cap)
         seq("c_lgt", LGT, coro=True, max_emit=2, **cap)
         seq("n_lft", LFT, max_emit=3, **cap)
-        seq("vc_lgo", LGO, void=True, coro=True, max_emit=3, **cap)
+        seq("vc_lgo", LGO, void=True, coro=True, max_emit=3, shells=True, **cap)
         # the pair obtained through hook_up(fn), fn emitting 0..2 values through the collector before it returns
         seq("hn_lgo", LGO, max_emit=2, hooked=True, reg_emit=2, max_paths=1500, extra_random=50)
         seq("hc_glt", ["gated", "loop", "cbt"], coro=True, max_emit=2, hooked=True, reg_emit=2, max_paths=1500, extra_random=50)
+        # every call form of the collector in every order of two, a class type with several constructors (signal<Pay>):
+        # constructed from one / two arguments, from none (T{}), moved in, passed by reference; under the discipline
+        seq("p_lgo", LGO, pay=True, strict=True, max_emit=2, forms=ALLF, shells=True, max_paths=3000, extra_random=50)
+        # ... and on signal<int> inside a coroutine, all histories; signal objects moved, connect() on the moved-from ones
+        seq("pc_lft", LFT, coro=True, max_emit=2, forms=["inplace", "default", "rvalue", "lvalue"], shells=True,
+            max_paths=3000, extra_random=50)
+        # two signals, the listener's ONE emitter object constructed / assigned from emitters of either signal, of none,
+        # or from another listener's (subscribed) emitter, before and after disconnects
+        seq("r_gf", ["gated", "cbf"], nsig=2, rebinds=RB4, shells=True, max_emit=1, max_handles=1, forms=["rvalue"],
+            max_paths=2500, extra_random=50)
+        seq("rc_gg", ["gated", "gated"], coro=True, nsig=2, rebinds=["cctor", "cassign"], rebound=[0], max_cancel=1, max_emit=2,
+            max_handles=1, forms=["rvalue"], max_paths=2500, extra_random=50)
+        seq("r_lg", ["loop", "gated"], strict=True, nsig=2, rebinds=["mctor", "massign"], max_emit=1, max_handles=1,
+            forms=["lvalue"], max_paths=2500, extra_random=50)
         # the promised properties under the discipline (Strict = TRUE), deeper bound, specification only
         seq("s_c_lgo", LGO, coro=True, strict=True, max_emit=3, replay=False)
         seq("s_n_lgt", LGT, strict=True, max_emit=3, replay=False)
@@ -398,6 +477,25 @@ def run(ctx):
             seq("h" + c + "_glt", ["gated", "loop", "cbt"], coro=coro, max_emit=2, hooked=True, reg_emit=2)
             seq("hv" + c + "_lgo", LGO, void=True, coro=coro, max_emit=3, hooked=True, reg_emit=2)
             seq("s_h" + c + "_lgo4", LGO, coro=coro, strict=True, max_emit=4, hooked=True, reg_emit=2, replay=False)
+            # call forms on a class type / the argument-less form; signal objects moved and used after the move
+            seq("p" + c + "_lgo", LGO, coro=coro, pay=True, max_emit=2, forms=ALLF, shells=True)
+            seq("p" + c + "_lft3", LFT, coro=coro, pay=True, max_emit=3, forms=["inplace2", "default", "rvalue"], shells=True,
+                max_paths=50000, replay_timeout=3000)
+            seq("i" + c + "_lgt", LGT, coro=coro, max_emit=2, forms=["inplace", "default", "rvalue", "lvalue"], shells=True)
+            seq("s_p" + c + "_lgo", LGO, coro=coro, strict=True, max_emit=3, forms=ALLF, shells=True, replay=False)
+            # emitter objects re-bound between two signals
+            seq("r" + c + "_gf", ["gated", "cbf"], coro=coro, nsig=2, rebinds=RB4, shells=True, max_emit=2, max_handles=1,
+                forms=["rvalue", "default"], max_paths=50000, replay_timeout=3000)
+            seq("r" + c + "_gg", ["gated", "gated"], coro=coro, nsig=2, rebinds=RB4, rebound=[0], max_cancel=1, max_emit=2,
+                max_handles=1, forms=["rvalue"], max_paths=50000, replay_timeout=3000)
+            seq("r" + c + "_lg", ["loop", "gated"], coro=coro, strict=True, nsig=2, rebinds=RB4[2 * coro:][:2], max_emit=2, max_handles=1,
+                forms=["lvalue"], max_paths=50000, replay_timeout=3000)
+        seq("r_gg2", ["gated", "gated"], nsig=2, rebinds=["cassign"], max_emit=1, max_handles=1, forms=["rvalue"],
+            max_paths=50000, replay_timeout=3000)
+        seq("r_gt2", ["gated", "cbt"], nsig=2, rebinds=["cctor", "massign"], shells=True, max_emit=2, max_handles=2,
+            forms=["inplace"], max_paths=50000, replay_timeout=3000)
+        seq("s_r_ggf", ["gated", "gated", "cbf"], strict=True, nsig=2, rebinds=RB4, rebound=[0], max_cancel=1, shells=True,
+            max_emit=2, max_handles=1, forms=["rvalue", "default"], replay=False)
         seq("n_llg", ["loop", "loop", "gated"], max_emit=2)
         seq("c_llg", ["loop", "loop", "gated"], coro=True, max_emit=2)
         seq("n_lg4", ["loop", "gated"], max_emit=4, replay_timeout=3000)
@@ -432,5 +530,9 @@ def run(ctx):
     ctx.assume("reference counting of the shared state (std::shared_ptr control block) is not a scheduling point: handle "
                "copies/destruction are interleaved with subscriptions at the grain of the operations on state::_chain only")
     ctx.assume("compare_exchange_weak does not fail spuriously (x86-64 lock cmpxchg); weak CAS is executed as strong under the controlled scheduler")
-    ctx.assume("value type int (and void); the registration function of hook_up() stores or drops the collector, emits "
+    ctx.assume("emitter objects are constructed / assigned only while their listener is not suspended on them; an object that has "
+               "been moved from is not used as the source of a copy; a collector object without state is never called "
+               "(null dereference); connect() and get_emitter() on signal objects without state are defined by the code "
+               "(signal.h:232,298-305) and are part of the histories")
+    ctx.assume("value types int, a class with several constructors (Pay), and void; the registration function of hook_up() stores or drops the collector, emits "
                "through it with storing call forms only, or hands it to the collector thread")
